@@ -506,6 +506,12 @@ def evaluate(cases, rep, tag="cases"):
         # public read of a second partition must be the ones of the fresh partition compared above
         if int(case.get("k", 0)) % 2 == 0:
             from harness.props import common_cases as cc
+            for n, a, b in cc.warnings_as_errors(case, list(io["v"]))[:1]:
+                nfail += 1
+                rep.violation("impl-vs-property", _replayable(case),
+                              {"what": n + " differs when warnings are errors", "normal": a,
+                               "warnings_as_errors": b}, {"measure": n, "oracle": "warnings_as_errors"})
+            rep.dist("warnings-as-errors")
             population, late = cc.late_reads(case, [n for n in io["v"] if n != "sums"] + ["sums"], io["v"])
             rep.dist("late-reads:" + ("strand" if io["ndim"] == 1 else "slice"))
             for n, a, b, culprits in late[:1]:
